@@ -46,3 +46,24 @@ Theorem C07_slice_reads_only_destination_and_document : forall (A E : Type) (zer
   match decode A E zero decE slice_clears pool dst dcap es with Some (out, _) => Some out | None => None end
   = spec A E zero decE dst es.
 Proof. intros. apply decode_is_spec; [intro i; reflexivity|assumption]. Qed.
+
+(* ---- raw stores into pointer-free destinations (Model/Layout.v) ---- *)
+From GJ Require Import Spec.Json Model.Enc Model.Layout Proofs.LayoutP.
+(* for every layout in which elements fit their stride and fields fit their struct, every document and every
+   address: each store lies inside the destination *)
+Theorem C07_stores_inside_destination : forall t, wf t = true -> forall d base, Forall (inside base (lsize t)) (stores t d base).
+Proof. exact stores_inside. Qed.
+Print Assumptions C07_stores_inside_destination.
+(* and a field that no key of the object selects (exactly or up to letter case) is in no store, when no other
+   field overlaps it: sibling fields keep their contents *)
+Theorem C07_unselected_field_untouched : forall s fs ms base name off ft,
+  wf (LStruct s fs) = true -> In (name, off, ft) fs ->
+  (forall k b v, In (k, b, v) ms -> key_selects k name = false) ->
+  (forall name' off' ft', In (name', off', ft') fs -> (name', off', ft') = (name, off, ft) \/ disjoint off' (lsize ft') off (lsize ft)) ->
+  Forall (fun w => disjoint (fst w) (snd w) (base + off) (lsize ft)) (stores (LStruct s fs) (JObj ms) base).
+Proof. exact unselected_field_untouched. Qed.
+Example C07_short_array_ex :
+  stores (LStruct 16 [([65], 0, LArr 4 1 (LScalar 1)); ([66], 4, LArr 4 1 (LScalar 1)); ([67], 8, LScalar 8)])
+         (JObj [([65], false, JArr [JLeaf (TNum [57])])]) 1000
+  = [(1000, 1); (1001, 1); (1002, 1); (1003, 1)].
+Proof. exact short_array_stores. Qed.
